@@ -50,8 +50,15 @@ FAULT_TYPES = [InjectedFault] + [type("Injected" + b.__name__, (InjectedFault, b
                                   OverflowError, FloatingPointError, UnicodeError, EOFError, NameError, TimeoutError)]
 
 
+# ... and so do KeyboardInterrupt (Ctrl-C during a long explanation in a notebook), SystemExit and task cancellation, which derive
+# from BaseException only.  Used where the harness catches them explicitly (Clock.interrupts = True).
+import asyncio as _asyncio
+INTERRUPT_TYPES = [type("Injected" + b.__name__, (b,), {"injected": True}) for b in (KeyboardInterrupt, _asyncio.CancelledError, SystemExit)]
+
+
 class Clock:
     """Single logical clock + event log + failpoint shared by all proxies of one scenario."""
+    interrupts = False
 
     def __init__(self):
         self.log = []
@@ -65,7 +72,8 @@ class Clock:
         self.callbacks += 1
         if self.fail_at is not None and self.callbacks == self.fail_at:
             self.log.append(("fault", site))
-            self.last_fault = FAULT_TYPES[(self.callbacks + self.fault_salt) % len(FAULT_TYPES)](f"{site} #{self.callbacks}")
+            types = FAULT_TYPES + INTERRUPT_TYPES if self.interrupts else FAULT_TYPES
+            self.last_fault = types[(self.callbacks + self.fault_salt) % len(types)](f"{site} #{self.callbacks}")
             raise self.last_fault
 
     def reset(self):
@@ -114,9 +122,13 @@ class Models:
         self.accept_batch = accept_batch
         self.out_type, self.label_keys = out_type, label_keys
         self.memo = None            # set to {} for a memoising model: the SAME dict object is handed out for equal inputs
+        self.label_order = "fixed"  # "by-value": label dicts list the most probable label first (key ORDER varies from call to call)
 
     def num(self, n, den=7):
         if self.exact:
+            if self.out_type == "fraction":           # the standard library's exact rationals (Fraction + float is a float: an
+                import fractions                      # accidental float start value / offset in the library destroys exactness)
+                return fractions.Fraction(n, den)
             return Q(n, den)
         if self.out_type == "np64":                   # NumPy scalars are legal numeric outputs
             import numpy as np
@@ -137,6 +149,12 @@ class Models:
         return l if self.label_keys == "int" else f"class_{l}"
 
     def one(self, x):
+        out = self._one(x)
+        if self.label_order == "by-value" and len(out) > 1:
+            out = dict(sorted(out.items(), key=lambda kv: (-float(kv[1]), repr(kv[0]))))
+        return out
+
+    def _one(self, x):
         k = self.kind
         c = canon(x)
         if k == "scalar":
